@@ -63,6 +63,9 @@ def check(facts, rep, tier, cfg):
     check_r7_initial_state(facts, rep, crate)
     check_r8_read_not_gated_on_flush(facts, rep, bodies)
     check_r9_flush_before_idle(facts, rep, bodies)
+    rep.rule("C13.S7", "no new process-wide mutable state (static cell / lock / once-cell) in the files this property is anchored in")
+    import whomay
+    whomay.check_new_statics(facts, rep, "C13.S7", "C13")
 
 
 def check_r2(facts, rep, bodies):
